@@ -18,7 +18,9 @@ import (
 // unchanged (semantic fingerprint).
 
 // c08Args are the per-VM run arguments (bound to `param (PA, PB)`).
-func c08Args(i int) []ugo.Object { return []ugo.Object{ugo.Int(i*7 + 1), ugo.String(c08WIDs[i] + "-arg")} }
+func c08Args(i int) []ugo.Object {
+	return []ugo.Object{ugo.Int(i*7 + 1), ugo.String(c08WIDs[i] + "-arg")}
+}
 
 var c08WIDs = []string{"w0", "vm-one", "thirdVM", "x"}
 
